@@ -154,3 +154,42 @@ pub extern "C" fn c14_rwlock_2() {
 pub extern "C" fn c14_rwlock_3() {
     run::<RwLock<()>>(3, 0);
 }
+
+/// C14/C02: the borrow-slot cursor wraps. A guard whose debt was paid by a write, k further loads (k symbolic
+/// 0..9) so that a later guard may land in the very slot the first one used, then the first guard is
+/// promoted/dropped and another write happens while the later guard is held. Counts must stay exact.
+#[no_mangle]
+pub extern "C" fn c14_cursor() {
+    let pool: [V; 3] = [Arc::new(100), Arc::new(101), Arc::new(102)];
+    let c: ArcSwapAny<V, DefaultStrategy> = ArcSwapAny::new(pool[0].clone());
+    let g1 = c.load();
+    c.store(pool[1].clone()); // pays g1's debt: g1 owns a reference now, its slot is free again
+    let k = nondet(1);
+    assume(k <= 9);
+    let mut i = 0;
+    while i < k {
+        drop(c.load());
+        i += 1;
+    }
+    let g2 = c.load();
+    vassert(idx_of(&pool, &g2) == 1, 1);
+    let how = nondet(2);
+    assume(how < 2);
+    if how == 0 {
+        let v = Guard::into_inner(g1);
+        vassert(idx_of(&pool, &v) == 0, 2);
+        drop(v);
+    } else {
+        vassert(idx_of(&pool, &g1) == 0, 3);
+        drop(g1);
+    }
+    c.store(pool[2].clone()); // g2's debt must still be there to be paid
+    vassert(idx_of(&pool, &g2) == 1, 4);
+    vassert(Arc::strong_count(&pool[1]) == 2, 5); // pool + g2
+    drop(g2);
+    drop(c);
+    vassert(Arc::strong_count(&pool[0]) == 1, 10);
+    vassert(Arc::strong_count(&pool[1]) == 1, 11);
+    vassert(Arc::strong_count(&pool[2]) == 1, 12);
+    cover(1);
+}
